@@ -14,11 +14,11 @@
 (*   objs  : Quantity objects [m, b]      REFERENCES into mags / bus       *)
 (*                                                                         *)
 (* The ideal (QuantityIdeal) runs in lock step on the variable io.         *)
-(* Repaired = FALSE transcribes the pinned code; its departures from the   *)
-(* ideal are the NAMED DEVIATIONS below (DevName).  Repaired = TRUE is the *)
-(* same machine with the in-place conversions of operands done on copies:  *)
-(* TLC checks Frame and NoShare on it (the design is sound) and finds the  *)
-(* aliasing counterexamples on the pinned one.                             *)
+(* Fixed = {} transcribes the pinned code; its departures from the ideal   *)
+(* are the NAMED DEVIATIONS (AllDevs, DevName).  A deviation listed in      *)
+(* Fixed is modelled as repaired (the conversion / assignment is done on a *)
+(* copy).  With Fixed = AllDevs TLC checks Frame and NoShare (the design   *)
+(* is sound); with Fixed = {} it finds the aliasing counterexamples.       *)
 (*                                                                         *)
 (*   Frame   : every object's projection (value token, units, error token) *)
 (*             through the heap equals its ideal value                     *)
@@ -28,7 +28,7 @@
 (***************************************************************************)
 EXTENDS QuantityIdeal, TLC
 
-CONSTANTS Repaired,       \* BOOLEAN
+CONSTANTS Fixed,          \* the named deviations that are REPAIRED in the modelled code ({} = the pinned tree)
           Configs,        \* set of initial configurations: sequences of [u, dec, arr, err]
           PureOps,        \* operations (not in-place) the histories may use
           InplOps,        \* in-place methods the histories may use
@@ -41,6 +41,9 @@ VARIABLES S,              \* the heap [mags, bus, dicts, objs]
           npure, ninpl
 vars == <<S, io, hist, cfg, npure, ninpl>>
 
+AllDevs == {"rhs_converted_in_place", "log_operands_to_linear", "arg_converted_in_place", "operand_to_rad",
+            "operand_to_none", "ctor_shares_magnitude", "ctor_mutates_magnitude"}
+Fx(d) == d \in Fixed
 -----------------------------------------------------------------------------
 \* heap helpers
 NewMag(T, c) == [T EXCEPT !.mags = Append(@, c)]
@@ -103,30 +106,30 @@ MStep(A, T, RO, refused, tok) ==
          ELSE IF IsLog(OUnit(T, x)) THEN
             \* LogarithmicUnitType.add/sub: mag1 = unit1.magnitude ; mag2 = unit2.to(..).magnitude ; both .value overwritten
             LET m1 == T.objs[x].m
-                T1 == IF Repaired THEN T ELSE ToBU(T, y, T.objs[x].b)
+                T1 == IF Fx("log_operands_to_linear") THEN T ELSE ToBU(T, y, T.objs[x].b)
                 m2 == T1.objs[y].m
-                T2 == IF Repaired THEN T1 ELSE [T1 EXCEPT !.mags[m1].lin = @ + 1]
-                T3 == IF Repaired THEN T2 ELSE [T2 EXCEPT !.mags[m2].lin = @ + 1]
+                T2 == IF Fx("log_operands_to_linear") THEN T1 ELSE [T1 EXCEPT !.mags[m1].lin = @ + 1]
+                T3 == IF Fx("log_operands_to_linear") THEN T2 ELSE [T2 EXCEPT !.mags[m2].lin = @ + 1]
             IN ResShareBU(T3, RO, T3.objs[x].b)
          ELSE
             \* UnitType.add/sub: unit2.to(unit1.baseunits) converts the right operand IN PLACE
-            LET T1 == IF Repaired THEN T ELSE ToBU(T, y, T.objs[x].b)
+            LET T1 == IF Fx("rhs_converted_in_place") THEN T ELSE ToBU(T, y, T.objs[x].b)
             IN ResShareBU(T1, RO, T1.objs[x].b)
     [] op \in {"mul", "div"} ->
          IF refused THEN T ELSE ResFresh(T, RO, ExMerge(OUnit(T, x), OUnit(T, y), IF op = "mul" THEN 1 ELSE -1))
     [] op = "eq" ->
          \* other.to(self.units()) unless other is zero - before the comparison itself may fail on a Decimal
-         IF ~Convertible(OUnit(T, y), OUnit(T, x)) \/ OMag(T, y).z \/ Repaired THEN T ELSE ToStr(T, y, OUnit(T, x))
+         IF ~Convertible(OUnit(T, y), OUnit(T, x)) \/ OMag(T, y).z \/ Fx("rhs_converted_in_place") THEN T ELSE ToStr(T, y, OUnit(T, x))
     [] op \in {"np.linspace", "np.logspace"} ->
          \* b = b.to(a.baseunits) - before numpy itself may fail on a Decimal
          IF ~Convertible(OUnit(T, y), OUnit(T, x)) THEN T
-         ELSE LET T1 == IF Repaired THEN T ELSE ToBU(T, y, T.objs[x].b)
+         ELSE LET T1 == IF Fx("arg_converted_in_place") THEN T ELSE ToBU(T, y, T.objs[x].b)
               IN IF refused THEN T1 ELSE ResShareBU(T1, RO, T1.objs[x].b)
     [] op \in {"radd", "rsub"} ->
          \* left = Quantity(number) ; self.to(left.baseunits)
          IF refused THEN T
          ELSE LET T0 == FreshBU(T, UNone)
-                  T1 == IF Repaired THEN T0 ELSE ToBU(T0, x, Len(T0.bus))
+                  T1 == IF Fx("rhs_converted_in_place") THEN T0 ELSE ToBU(T0, x, Len(T0.bus))
               IN ResFresh(T1, RO, UNone)
     [] op \in {"addn", "subn", "np.linspace_nq", "np.logspace_nq", "np.linspace_qn", "np.logspace_qn"} \cup KeepOps ->
          IF refused THEN T ELSE ResShareBU(T, RO, T.objs[x].b)
@@ -136,10 +139,10 @@ MStep(A, T, RO, refused, tok) ==
     [] op \in SinOps ->
          \* inputs[0].to('rad') - before the function itself may fail on a Decimal
          IF ~Convertible(OUnit(T, x), URad) THEN T
-         ELSE LET T1 == IF Repaired THEN T ELSE ToStr(T, x, URad) IN IF refused THEN T1 ELSE ResFresh(T1, RO, UNone)
+         ELSE LET T1 == IF Fx("operand_to_rad") THEN T ELSE ToStr(T, x, URad) IN IF refused THEN T1 ELSE ResFresh(T1, RO, UNone)
     [] op \in ArcOps ->
          IF ~Convertible(OUnit(T, x), UNone) THEN T
-         ELSE LET T1 == IF Repaired THEN T ELSE ToStr(T, x, UNone) IN IF refused THEN T1 ELSE ResFresh(T1, RO, URad)
+         ELSE LET T1 == IF Fx("operand_to_none") THEN T ELSE ToStr(T, x, UNone) IN IF refused THEN T1 ELSE ResFresh(T1, RO, URad)
     [] op = "value" ->
          \* _convert(self.magnitude, self.baseunits, BaseUnits(expression)): only the Decimal promotion touches self
          IF refused THEN T
@@ -147,14 +150,14 @@ MStep(A, T, RO, refused, tok) ==
     [] op = "ctor_dict" ->
          \* Quantity(x.magnitude, {...}) : the Magnitude object is stored by reference
          LET T1 == FreshBU(T, OUnit(T, x))
-             T2 == IF Repaired THEN NewMag(T1, OMag(T1, x)) ELSE T1
-         IN QInit(T2, IF Repaired THEN Len(T2.mags) ELSE T2.objs[x].m, Len(T2.bus))
+             T2 == IF Fx("ctor_shares_magnitude") THEN NewMag(T1, OMag(T1, x)) ELSE T1
+         IN QInit(T2, IF Fx("ctor_shares_magnitude") THEN Len(T2.mags) ELSE T2.objs[x].m, Len(T2.bus))
     [] op = "ctor_dict_abse" ->
          \* Quantity(x.magnitude, {...}, abse=..) : magnitude.abse(abse) on the PASSED object, then stored by reference
          LET T1 == FreshBU(T, OUnit(T, x))
-             T2 == IF Repaired THEN NewMag(T1, [OMag(T1, x) EXCEPT !.e = tok])
+             T2 == IF Fx("ctor_mutates_magnitude") THEN NewMag(T1, [OMag(T1, x) EXCEPT !.e = tok])
                    ELSE [T1 EXCEPT !.mags[T1.objs[x].m].e = tok]
-         IN QInit(T2, IF Repaired THEN Len(T2.mags) ELSE T2.objs[x].m, Len(T2.bus))
+         IN QInit(T2, IF Fx("ctor_mutates_magnitude") THEN Len(T2.mags) ELSE T2.objs[x].m, Len(T2.bus))
     [] op = "to" -> IF refused THEN T ELSE ToStr(T, x, A.arg)
     [] op = "rebase" /\ refused -> T
     [] op \in {"abse_set", "rele_set"} /\ refused -> T
